@@ -112,7 +112,7 @@ def self_requiring(rootname, rootnode, types):
 
 
 def empty_example_of_a_reference_root(case, reason):
-    """F06c: the checked schema is a bare reference or choice, and a plain mandatory cycle AMONG THE OTHER types is reached"""
+    """F06e: the checked schema is a bare reference or choice, and a plain mandatory cycle AMONG THE OTHER types is reached"""
     g = case.line.split(' || ')[0].split(' ')
     return len(g) > 3 and g[3].startswith('R')
 
